@@ -217,17 +217,48 @@ pub fn worker() {
 struct Worker {
     child: Child,
     rx: mpsc::Receiver<String>,
+    stderr_path: std::path::PathBuf,
+}
+
+static WORKER_SEQ: std::sync::atomic::AtomicU64 = std::sync::atomic::AtomicU64::new(0);
+
+impl Worker {
+    /// Why a dead worker died, from what the Rust runtime printed before aborting: memory or stack
+    /// exhaustion (`alloc` / `stack`) or something else (`other`, with the text).
+    fn cause_of_death(&self) -> (String, String) {
+        let text = std::fs::read_to_string(&self.stderr_path).unwrap_or_default();
+        let tail: String = text.chars().take(300).collect();
+        let why = if text.contains("memory allocation of") || text.contains("capacity overflow") && text.contains("abort") {
+            "alloc"
+        } else if text.contains("overflowed its stack") {
+            "stack"
+        } else {
+            "other"
+        };
+        (why.to_owned(), tail)
+    }
+    fn discard(mut self) {
+        let _ = self.child.kill();
+        let _ = self.child.wait();
+        let _ = std::fs::remove_file(&self.stderr_path);
+    }
 }
 
 fn spawn_worker(mem_kb: u64) -> Worker {
     let exe = std::env::current_exe().expect("exe");
+    let stderr_path = std::env::current_dir().unwrap_or_else(|_| std::env::temp_dir()).join(format!(
+        ".vh_worker_stderr.{}.{}",
+        std::process::id(),
+        WORKER_SEQ.fetch_add(1, std::sync::atomic::Ordering::Relaxed)
+    ));
+    let stderr = std::fs::File::create(&stderr_path).map(Stdio::from).unwrap_or_else(|_| Stdio::null());
     let mut child = Command::new("sh")
         .arg("-c")
         .arg(format!("ulimit -v {mem_kb}; exec \"$0\" callworker"))
         .arg(exe)
         .stdin(Stdio::piped())
         .stdout(Stdio::piped())
-        .stderr(Stdio::null())
+        .stderr(stderr)
         .spawn()
         .expect("spawn worker");
     let out = child.stdout.take().expect("stdout");
@@ -239,7 +270,7 @@ fn spawn_worker(mem_kb: u64) -> Worker {
             }
         }
     });
-    Worker { child, rx }
+    Worker { child, rx, stderr_path }
 }
 
 /// Run the cases of one shard through a killable worker; a call that does not answer within the
@@ -253,9 +284,7 @@ pub fn run_shard(cases: &[J], w: &mut dyn Write, deadline: Duration, mem_kb: u64
         if answer.is_none() && !matches!(worker.child.try_wait(), Ok(Some(_))) {
             // no answer in time: a busy machine must not look like a hang - once more, alone in a
             // fresh worker, with three times the deadline
-            let _ = worker.child.kill();
-            let _ = worker.child.wait();
-            worker = spawn_worker(mem_kb);
+            std::mem::replace(&mut worker, spawn_worker(mem_kb)).discard();
             let sent = worker.child.stdin.as_mut().map(|s| writeln!(s, "{line}").and_then(|_| s.flush())).is_some_and(|r| r.is_ok());
             answer = if sent { worker.rx.recv_timeout(deadline * 3).ok() } else { None };
         }
@@ -265,8 +294,7 @@ pub fn run_shard(cases: &[J], w: &mut dyn Write, deadline: Duration, mem_kb: u64
             }
             None => {
                 let died = matches!(worker.child.try_wait(), Ok(Some(_)));
-                let _ = worker.child.kill();
-                let _ = worker.child.wait();
+                let (why, stderr_tail) = if died { worker.cause_of_death() } else { ("none".to_owned(), String::new()) };
                 let k = if died { "died" } else { "timeout" };
                 let src = match case["src"].as_str() {
                     Some(s) => s.to_owned(),
@@ -274,13 +302,12 @@ pub fn run_shard(cases: &[J], w: &mut dyn Write, deadline: Duration, mem_kb: u64
                 };
                 writeln!(w, "{}", json!({"e": "call", "f": case["f"], "src": src, "variant": "unknown", "args": case["args"], "ret": case["ret"],
                                           "wrong_runtime_arg": false, "declared": {"kd": {"p": []}, "fal": true, "known": false},
-                                          "out": {"k": k, "deadline_ms": deadline.as_millis() as u64}, "ms": deadline.as_millis() as u64})).unwrap();
-                worker = spawn_worker(mem_kb);
+                                          "out": {"k": k, "why": why, "stderr": stderr_tail, "deadline_ms": deadline.as_millis() as u64}, "ms": deadline.as_millis() as u64})).unwrap();
+                std::mem::replace(&mut worker, spawn_worker(mem_kb)).discard();
             }
         }
     }
-    let _ = worker.child.kill();
-    let _ = worker.child.wait();
+    worker.discard();
 }
 
 // ---------------------------------------------------------------------------------------------
@@ -471,6 +498,19 @@ pub fn eval_case(case: &J) -> J {
     let mut results = serde_json::Map::new();
     for (name, expr) in case["exprs"].as_object().into_iter().flatten() {
         let expr = expr.as_str().unwrap_or("null");
+        // C21: serde round trip of an event field, outside the language (`@serde <field>`)
+        if let Some(field) = expr.strip_prefix("@serde ") {
+            let v = event.as_object().and_then(|o| o.get(field)).cloned().unwrap_or(Value::Null);
+            let r = match catch_unwind(AssertUnwindSafe(|| {
+                serde_json::to_string(&v).map_err(|e| e.to_string()).and_then(|t| serde_json::from_str::<Value>(&t).map_err(|e| e.to_string()))
+            })) {
+                Err(p) => json!({"k": "panic", "m": panic_message(&p)}),
+                Ok(Err(e)) => json!({"k": "err", "m": e}),
+                Ok(Ok(back)) => json!({"k": "ok", "v": law_json(&back)}),
+            };
+            results.insert(name.clone(), r);
+            continue;
+        }
         let r = match compile_expr_cached(expr) {
             None => json!({"k": "rejected"}),
             Some((prog, wrapped)) => {
